@@ -129,7 +129,7 @@ func TestC06_StoredSignaturesAlwaysValid(t *testing.T) {
 						t.Fatalf("%s: stored signature of %s does not verify against the message's current signing bytes %x under %s (recovered %s)\nhistory: %v", item, sd.ValAddress, bz, sd.ExternalAccountAddress, addr.Hex(), log)
 					}
 					if want := signedWith[item][sd.ValAddress.String()]; !strings.EqualFold(want, sd.ExternalAccountAddress) {
-						t.Fatalf("%s: signature recorded for %s is under %s, its registered key when it signed was %q", item, sd.ValAddress, sd.ExternalAccountAddress, want)
+						t.Fatalf("%s: signature recorded for %s is under %s, its registered key when it signed was %q\nhistory: %v", item, sd.ValAddress, sd.ExternalAccountAddress, want, log)
 					}
 					if seenVal[sd.ValAddress.String()] || seenKey[strings.ToLower(sd.ExternalAccountAddress)] {
 						t.Fatalf("%s: validator or key appears twice among the stored signatures", item)
@@ -305,9 +305,18 @@ func TestC06_StoredSignaturesAlwaysValid(t *testing.T) {
 					txs = append(txs, c.MustSign(v.Actor, &consensustypes.MsgAddMessageGasEstimates{Metadata: chain.MD(v.Actor), Estimates: []*consensustypes.MsgAddMessageGasEstimates_GasEstimate{{MsgId: id, QueueTypeName: q, Value: uint64(rapid.IntRange(21000, 90000).Draw(t, "gas")), EstimatedByAddress: chain.EthAddr(v.EthKeys[c06Chain]).Hex()}}}))
 				}
 				block(t, txs...)
-				// the election discards the signatures collected so far
-				delete(signedWith, fmt.Sprintf("msg-%d", id))
-				log = append(log, fmt.Sprintf("estimate(msg-%d)", id))
+				// an election discards the signatures collected so far
+				elected := false
+				after, _ := c.App.ConsensusKeeper.GetMessagesFromQueue(c.ReadCtx(), q, 0)
+				for _, m := range after {
+					if m.GetId() == id && m.GetGasEstimate() != 0 {
+						elected = true
+					}
+				}
+				if elected {
+					delete(signedWith, fmt.Sprintf("msg-%d", id))
+				}
+				log = append(log, fmt.Sprintf("estimate(msg-%d)=elected:%v", id, elected))
 				checkAll(t)
 				// model follows the store: if signatures survived the election, checkAll above has already complained
 			},
@@ -354,8 +363,18 @@ func TestC06_StoredSignaturesAlwaysValid(t *testing.T) {
 					txs = append(txs, c.MustSign(v.Actor, &skywaytypes.MsgEstimateBatchGas{Metadata: chain.MD(v.Actor), Nonce: b.BatchNonce, TokenContract: c06ERC20, EthSigner: chain.EthAddr(v.EthKeys[c06Chain]).Hex(), Estimate: 60000}))
 				}
 				block(t, txs...)
-				delete(signedWith, fmt.Sprintf("batch-%d", b.BatchNonce))
-				log = append(log, fmt.Sprintf("estimateBatch(%d)", b.BatchNonce))
+				// an election re-issues the checkpoint and discards the confirmations collected so far
+				elected := false
+				after, _ := c.App.SkywayKeeper.GetOutgoingTxBatches(c.ReadCtx())
+				for _, x := range after {
+					if x.BatchNonce == b.BatchNonce && x.GasEstimate > 0 {
+						elected = true
+					}
+				}
+				if elected {
+					delete(signedWith, fmt.Sprintf("batch-%d", b.BatchNonce))
+				}
+				log = append(log, fmt.Sprintf("estimateBatch(%d)=elected:%v", b.BatchNonce, elected))
 				checkAll(t)
 			},
 			"reRegisterKey": func(t *rapid.T) {
@@ -369,7 +388,8 @@ func TestC06_StoredSignaturesAlwaysValid(t *testing.T) {
 					nk = freedKeys[len(freedKeys)-1]
 				}
 				ea := chain.EthAddr(nk)
-				oks := block(t, c.MustSign(v.Actor, &vtypes.MsgAddExternalChainInfoForValidator{Metadata: chain.MD(v.Actor), ChainInfos: []*vtypes.ExternalChainInfo{{ChainType: "evm", ChainReferenceID: c06Chain, Address: ea.Hex(), Pubkey: ea.Bytes()}}}))
+				oks := block(t, c.MustSign(v.Actor, &vtypes.MsgAddExternalChainInfoForValidator{Metadata: chain.MD(v.Actor), ChainInfos: []*vtypes.ExternalChainInfo{{ChainType: "evm", ChainReferenceID: c06Chain, Address: ea.Hex(), Pubkey: ea.Bytes()},
+					{ChainType: "evm", ChainReferenceID: c06Chain2, Address: chain.EthAddr(v.EthKeys[c06Chain2]).Hex(), Pubkey: chain.EthAddr(v.EthKeys[c06Chain2]).Bytes()}}})) // the message replaces the whole set: the second chain's account is kept
 				log = append(log, fmt.Sprintf("rekey(v%d,%s,handOver=%v)=%v", i, ea.Hex()[:10], handOver, oks[0]))
 				if oks[0] {
 					v.EthKeys[c06Chain] = nk
